@@ -19,6 +19,9 @@ Definition model_enc (v : value) : option bytes :=
   | VEnum members v => Some (enc_enum members v)
   | VSet members v => Some (enc_set members v)
   | VBit bits v => Some (enc_bit bits v)
+  | VFloat bits => Some (enc_float bits)
+  | VDouble bits => Some (enc_double bits)
+  | VJson doc => enc_json_doc doc
   end.
 
 (* (binlog type id, metadata) of the TABLE_MAP event *)
@@ -37,6 +40,9 @@ Definition model_meta (v : value) : N * N :=
   | VEnum members _ => (254, 247 * 256 + N.of_nat (enum_width members))
   | VSet members _ => (254, 248 * 256 + N.of_nat (set_width members))
   | VBit bits _ => (16, (bits / 8) * 256 + bits mod 8)
+  | VFloat _ => (4, 4)
+  | VDouble _ => (5, 8)
+  | VJson _ => (245, 4)
   end.
 
 Record obs := { o_data : option bytes;   (* None: the serializer returned an error *)
